@@ -376,6 +376,33 @@ pub fn c13(t: &dyn TypeOps, cx: &mut Cx, dmax: usize) {
                 Out::Err(e) if e == "WriteError" => {}
                 o => cx.violate(&format!("store-to-full-device-{}", if matches!(o, Out::Ok(_)) { "reports-success".to_string() } else { o.class() }), json!({"value": vdesc(i, &want), "observed": o.describe()})),
             }
+            // a file that cannot grow past 16 KiB (RLIMIT_FSIZE, SIGXFSZ ignored): the first
+            // writes succeed, a later direct write of a large block fails part-way
+            if let Some(li) = first_scalable(t, n) {
+                // (the exact length of the stream: it must exceed the limit with a wide margin)
+                if matches!(t.ser_scaled(li, 3_000), Out::Ok((b, _)) if b.len() > (40 << 10)) {
+                    cx.evals += 1;
+                    cx.transitions += 1;
+                    let path = format!("{}/c13-limited-{:016x}.bin", crate::checks3::scratch(), hash64(&[cx.type_id.as_bytes()]));
+                    let mut old = libc::rlimit { rlim_cur: 0, rlim_max: 0 };
+                    let r = unsafe {
+                        libc::signal(libc::SIGXFSZ, libc::SIG_IGN);
+                        libc::getrlimit(libc::RLIMIT_FSIZE, &mut old);
+                        let lim = libc::rlimit { rlim_cur: 16 << 10, rlim_max: old.rlim_max };
+                        libc::setrlimit(libc::RLIMIT_FSIZE, &lim);
+                        let r = t.store_scaled(li, 3_000, &path);
+                        libc::setrlimit(libc::RLIMIT_FSIZE, &old);
+                        r
+                    };
+                    let flen = std::fs::metadata(&path).map(|m| m.len()).unwrap_or(0);
+                    let _ = std::fs::remove_file(&path);
+                    cx.outcome(&format!("size-limited-file-{}", r.class()));
+                    match &r {
+                        Out::Err(e) if e == "WriteError" => {}
+                        o => cx.violate(&format!("store-to-size-limited-file-{}", if matches!(o, Out::Ok(_)) { "reports-success".to_string() } else { o.class() }), json!({"value_index": li, "file_len_reached": flen, "limit": 16 << 10, "observed": o.describe()})),
+                    }
+                }
+            }
             let r = t.store(i, crate::checks3::scratch());
             cx.outcome(&format!("dir-path-{}", r.class()));
             match &r {
@@ -470,7 +497,8 @@ pub fn c14(t: &dyn TypeOps, cx: &mut Cx, dmax: usize) {
     // a large value (payload past 64 KiB) through fragmenting readers and a real BufReader
     if let Some(i) = first_scalable(t, n) {
         if let Out::Ok((lb, sval)) = t.ser_scaled(i, 30_000) {
-            for (chunk, eintr) in [(4096usize, false), (8191, false), (65_537, false), (1000, true)] {
+            // (one byte at a time: a request of 100 KB and more arrives in as many pieces)
+            for (chunk, eintr) in [(4096usize, false), (8191, false), (65_537, false), (1000, true), (1, false)] {
                 cx.evals += 1;
                 let mut rd = ScriptReader::new(&lb, Script::default());
                 rd.chunk = chunk;
@@ -483,6 +511,24 @@ pub fn c14(t: &dyn TypeOps, cx: &mut Cx, dmax: usize) {
                 }
             }
         }
+    }
+    // a source that answers WouldBlock for ever from some point on: a read error, promptly
+    for (vi, i) in few(n, 2).into_iter().enumerate() {
+        let Out::Ok((b, _)) = t.ser(i) else { continue };
+        let mut probe = ScriptReader::new(&b, Script::default());
+        let _ = t.full_script(&mut probe);
+        let np = probe.point;
+        for p in (0..np).step_by((np / 8).max(1)).chain([np.saturating_sub(1)]) {
+            cx.evals += 1;
+            cx.transitions += 1;
+            let mut rd = ScriptReader::new(&b, Script::default());
+            rd.would_block_from = Some(p);
+            let o = t.full_script(&mut rd);
+            cx.outcome(&format!("would-block-{}", o.class()));
+            if rd.spun > 1 { cx.violate("reader-retries-a-persistent-WouldBlock", json!({"value_index": i, "point": p, "calls_after_the_first_answer": rd.spun, "observed": o.describe()})); }
+            else if !matches!(&o, Out::Err(e) if e == "ReadError") { cx.violate(&format!("would-block-{}", if matches!(o, Out::Ok(_)) { "value".to_string() } else { o.class() }), json!({"value_index": i, "point": p, "observed": o.describe()})); }
+        }
+        let _ = vi;
     }
     // a reader that fails LATE in a long sequence (more than 64 / 256 items, zero-copy or deep):
     // an error, nothing built so far dropped twice (a double drop of owning items aborts the
@@ -644,7 +690,41 @@ pub fn schema_forest(rows_in: &[(String, usize, usize, usize)], buf: &[u8], star
     bad
 }
 
+/// Rendering never fails, whatever the field and type names are: hand-built schemas whose
+/// names hold multi-byte characters at every byte offset of short and long names (run once,
+/// while the unit type is being explored).
+fn c18_rendering(cx: &mut Cx) {
+    use epserde::ser::{Schema, SchemaRow};
+    let data = vec![0x5Au8; 64];
+    let mut failures = 0u64;
+    for ch in ["ö", "€", "𝄞"] {
+        for total in [8usize, 40, 90, 97, 100, 130, 200, 300] {
+            for at in 0..total {
+                cx.evals += 1;
+                cx.transitions += 2;
+                let name = format!("{}{}{}", "a".repeat(at), ch, "b".repeat(total - at));
+                let rows = vec![
+                    SchemaRow { field: "ROOT".into(), ty: name.clone(), offset: 0, size: 16, align: 0 },
+                    SchemaRow { field: format!("ROOT.{}", name), ty: format!("Vec<{}>", name), offset: 0, size: 8, align: 0 },
+                    SchemaRow { field: "ROOT.zero".into(), ty: name.clone(), offset: 8, size: 8, align: 8 },
+                ];
+                let sc = Schema(rows);
+                let a = guarded(|| sc.to_csv().len());
+                let b = guarded(|| sc.debug(&data).len());
+                for (what, r) in [("to_csv", a), ("debug", b)] {
+                    if let Err(p) = r {
+                        failures += 1;
+                        if failures <= 6 { cx.violate(&format!("schema-{}-panics-on-a-name", what), json!({"name_bytes": name.len(), "multi_byte_char_at_byte": at, "char": ch, "observed": p})); }
+                    }
+                }
+            }
+        }
+    }
+    cx.outcome(if failures == 0 { "rendering-of-hand-built-schemas-ok" } else { "rendering-of-hand-built-schemas-panics" });
+}
+
 pub fn c18(t: &dyn TypeOps, cx: &mut Cx) {
+    if cx.type_id == "()" { c18_rendering(cx); }
     let ty = t.ty();
     let n = build(t, cx);
     for i in 0..n {
